@@ -12,6 +12,8 @@ PolicyHops == {"spec_est", "to_json_from_json", "pst", "text_cst_est"}
 Explained(ev) ==
   /\ ev.ev = "Formats"
   /\ \A h \in PolicyHops : h \in DOMAIN ev.hops /\ ev.hops[h] = ev.p0
+  /\ {"est_from_json", "alt_from_json", "est_pst", "alt_pst", "alt_pst_json", "alt_json", "alt_text"} \subseteq DOMAIN ev.alts
+  /\ \A h \in DOMAIN ev.alts : ev.alts[h] = ev.p0
   /\ IF ev.template
      THEN /\ ev.hops["proto"] = ev.p0
           /\ ev.hops["set_p0"].view.template = ev.p0
